@@ -2,6 +2,7 @@ import Driver.Util
 import Driver.Containers
 import Driver.Object
 import Driver.Render
+import Driver.Fetch
 
 /-
   One function per op of the line protocol.  Each takes the op's JSON (which also carries the
@@ -136,6 +137,8 @@ def dispatch (j : Json) : Except String Res := do
   | "config" => configOp j
   | "hook" => hookOp j
   | "render" => renderOp j
+  | "statusline" | "ctline" | "locline" | "headers" => jtpLineOp op j
+  | "fetchseq" => fetchSeqOp j
   | "paging" => pagingOp j
   | "splice" => spliceOp j
   | "history" => historyOp j
